@@ -15,7 +15,8 @@ S(s) == StrV(s)
 
 Scalars == {I32(1), I32(2), S("x"), Null} \cup (IF Params.big THEN {I64(1), Bool(TRUE)} ELSE {})
 SubDocs == {D(<<>>), D(<< <<"b", I32(1)>> >>), D(<< <<"b", I32(2)>> >>), D(<< <<"b", Null>> >>),
-            D(<< <<"b", A(<<I32(1), I32(2)>>)>> >>), D(<< <<"b", A(<<>>)>> >>), D(<< <<"c", I32(1)>> >>)}
+            D(<< <<"b", A(<<I32(1), I32(2)>>)>> >>), D(<< <<"b", A(<<>>)>> >>), D(<< <<"c", I32(1)>> >>),
+            D(<< <<"1", I32(1)>> >>), D(<< <<"1", D(<< <<"b", I32(2)>> >>)>> >>)}     \* numeric field names inside array elements
             \cup (IF Params.big THEN {D(<< <<"b", D(<< <<"c", I32(1)>> >>)>> >>), D(<< <<"b", S("x")>>, <<"c", I32(2)>> >>)} ELSE {})
 Elems == Scalars \cup SubDocs
 Arrays == {A(<<>>)} \cup {A(<<x>>) : x \in Elems} \cup {A(<<x, y>>) : x \in Elems, y \in Elems}
@@ -23,7 +24,7 @@ Arrays == {A(<<>>)} \cup {A(<<x>>) : x \in Elems} \cup {A(<<x, y>>) : x \in Elem
 AVals == Scalars \cup SubDocs \cup Arrays
 Docs == {D(<<>>)} \cup {D(<< <<"a", v>> >>) : v \in AVals}
 
-Paths == {<<"a">>, <<"a", "b">>, <<"a", "0">>, <<"a", "0", "b">>, <<"a", "1">>, <<"a", "b", "c">>}
+Paths == {<<"a">>, <<"a", "b">>, <<"a", "0">>, <<"a", "0", "b">>, <<"a", "1">>, <<"a", "b", "c">>, <<"a", "1", "b">>}
 
 CmpOps == {"$eq", "$gt", "$gte", "$lt", "$lte", "$ne"}
 CmpOperands == {I32(1), I32(2), S("x"), Null, A(<<I32(1), I32(2)>>), D(<< <<"b", I32(1)>> >>), A(<<>>)}
